@@ -51,8 +51,21 @@ def gen_calls(rng, n):
                 used = list(range(max(used) + 1))
             spinfn = fn in ("anneal_quso", "anneal_puso")
             kw["initial_state"] = [[x, rng.choice([1, -1] if spinfn else [0, 1])] for x in used]
-        calls.append({"id": cid, "fn": fn, "kind": kind, "terms": terms, "den": den, "labels": labels, "kwargs": kw,
-                      "trace": False, "twice": False})
+        call = {"id": cid, "fn": fn, "kind": kind, "terms": terms, "den": den, "labels": labels, "kwargs": kw,
+                "trace": False, "twice": False}
+        # stale models: a reported variable that occurs in no term (variables are upper bounds before refresh, C14).  Not with a
+        # named schedule on a model without any term: anneal_temperature_range is not defined there (DESIGN 5).
+        has_term = any(k for k, _ in terms)
+        if kind != "dict" and rng.random() < 0.15 and (has_term or not isinstance(kw["schedule"], str)):
+            if matrix:
+                used = [x for k, _ in terms for x in k]
+                lab = (max(used) + 1 + rng.randint(0, 1)) if used else rng.randint(0, 2)
+            else:
+                lab = "L%d" % len(labels)
+                labels[lab] = repr("stale")
+            call["post"] = [[[lab], 1], [[lab], 0]]
+            kw.pop("initial_state", None)
+        calls.append(call)
     return calls
 
 
